@@ -304,6 +304,13 @@ def oracle(l, r, kind, n, via, tmp=None):
             open(a, 'w', encoding='utf8').write(l)
             open(b, 'w', encoding='utf8').write(r)
             res = main.diff_files(a, b, formatter=make_formatter(kind, n))
+        elif via in ('streams', 'textstreams', 'bytes'):
+            # open binary streams, text-mode streams (already decoded), byte strings
+            if via == 'bytes':
+                res = main.diff_texts(l.encode('utf8'), r.encode('utf8'), formatter=make_formatter(kind, n))
+            else:
+                mk = (lambda x: io.BytesIO(x.encode('utf8'))) if via == 'streams' else io.StringIO
+                res = main.diff_files(mk(l), mk(r), formatter=make_formatter(kind, n))
         elif via == 'cli':
             # only the normalize values the CLI can produce: -w (0) or not (3)
             a, b = os.path.join(tmp, 'l.xml'), os.path.join(tmp, 'r.xml')
@@ -411,6 +418,12 @@ def oracle_actions(l, r):
     from harness import gen
     L, R = parse_plain(l), parse_plain(r)
     try:
+        # whatever the matching options: a re-indentation changes white-space-only texts and tails, nothing else
+        for o in ({"F": 0.9}, {"F": 1.0, "fast_match": True}, {"F": 0.75, "best_match": True}, {"ratio_mode": "accurate", "F": 0.95}):
+            acts_o = main.diff_trees(parse_plain(l), parse_plain(r), diff_options=dict(o))
+            bad = [a for a in acts_o if not isinstance(a, (actions.UpdateTextIn, actions.UpdateTextAfter))]
+            if bad:
+                return "diff_trees(diff_options=%r) on unstripped trees: non-text actions %r" % (o, bad[:3])
         acts = main.diff_trees(L, R)
         bad = [a for a in acts if not isinstance(a, (actions.UpdateTextIn, actions.UpdateTextAfter))]
         if bad:
@@ -528,11 +541,12 @@ def main(run):
                                                                         "formatter": kind, "normalize": n}})
             if i % (4 if quick else 2) == 0:
                 for kind, n in rng.sample(combos, 4):
-                    w = oracle(l, r, kind, n, 'files', tmp)
-                    nfiles += 1
-                    if w:
-                        viols.append({"what": "diff_files: " + w, "replay": {"kind": "oracle", "via": "files", "left": l, "right": r,
-                                                                            "formatter": kind, "normalize": n}})
+                    for via in ('files', rng.choice(('streams', 'textstreams', 'bytes'))):
+                        w = oracle(l, r, kind, n, via, tmp)
+                        nfiles += 1
+                        if w:
+                            viols.append({"what": "%s: %s" % (via, w), "replay": {"kind": "oracle", "via": via, "left": l, "right": r,
+                                                                                 "formatter": kind, "normalize": n}})
                 for kind in ('DiffFormatter', 'XmlDiffFormatter', 'XMLFormatter'):
                     for n in (0, 3):
                         w = oracle(l, r, kind, n, 'cli', tmp)
